@@ -9,7 +9,14 @@ Streams compared with the Lean mirror (`lean/Driver/C13.lean`): root name, `list
 against the independent Python statement below.
 
 Oracle (independent of the mirror, structural, no paths): `spec_entrypoints`, `spec_resolve` (deepest annotated
-branch on the value's path whose name is not the root name), `spec_inject`."""
+branch on the value's path whose name is not the root name), `spec_inject`.
+
+Extension: every type is sent to the model as the type expression the real code gets (`rty_toks`): raw annotation lists
+(`:type` names — fresh or equal to entrypoint names —, several annotations on a node in any order, `@var` noise, the
+rejected shapes `%a %b` / `:s :t`), leaves that are `pair` / `option` / `list` types with annotated unions below them
+(ids 5..7; 8, 9 are leaves `Micheline.match` refuses).  Two more streams: the Python-object form of a call
+(`from_python_object({entrypoint: obj})`, the string form, names that are display names but no entrypoints) and
+`to_python_object` of full values."""
 import json
 import itertools
 
@@ -19,17 +26,29 @@ PROP = 'C13'
 
 LEAF_TYPES = [{'prim': 'unit'}, {'prim': 'nat'}, {'prim': 'string'}, {'prim': 'bytes'},
               {'prim': 'pair', 'args': [{'prim': 'nat'}, {'prim': 'string'}]}]
-LEAF_OF_PRIM = {'unit': 0, 'nat': 1, 'string': 2, 'bytes': 3, 'pair': 4}
+# non-union types with unions below them: the inner %names are deliberately names the generator also uses for entrypoints
+LEAF_TYPES += [
+    {'prim': 'pair', 'args': [{'prim': 'or', 'args': [{'prim': 'nat', 'annots': ['%default']}, {'prim': 'string', 'annots': ['%e1']}]}, {'prim': 'nat'}]},
+    {'prim': 'option', 'args': [{'prim': 'or', 'args': [{'prim': 'unit', 'annots': ['%n1']}, {'prim': 'nat', 'annots': ['%root']}]}]},
+    {'prim': 'list', 'args': [{'prim': 'or', 'args': [{'prim': 'nat', 'annots': ['%e2']}, {'prim': 'string', 'annots': [':e3', '%n0']}]}]},
+    # refused by Micheline.match (a %field annotation on the argument of option / list)
+    {'prim': 'option', 'args': [{'prim': 'nat', 'annots': ['%x']}]},
+    {'prim': 'list', 'args': [{'prim': 'or', 'annots': ['%l'], 'args': [{'prim': 'nat'}, {'prim': 'string'}]}]},
+]
+N_PLAIN_LEAVES, STRUCTURED_LEAVES, REFUSED_LEAVES = 5, [5, 6, 7], [8, 9]
+LEAF_ID = {json.dumps(e, sort_keys=True): i for i, e in enumerate(LEAF_TYPES)}
 
 
 # ------------------------------------------------------------------------------------------ trees <-> Micheline
-def ty_expr(t):
+def ty_expr(t, deco=None, path=''):
+    """deco: path -> the raw annotation list of the node there (default: its %annotation alone)"""
     if t[0] == 'l':
         e = dict(LEAF_TYPES[t[2]])
     else:
-        e = {'prim': 'or', 'args': [ty_expr(t[2]), ty_expr(t[3])]}
-    if t[1] is not None:
-        e['annots'] = ['%' + t[1]]
+        e = {'prim': 'or', 'args': [ty_expr(t[2], deco, path + '0'), ty_expr(t[3], deco, path + '1')]}
+    annots = deco[path] if deco and path in deco else (['%' + t[1]] if t[1] is not None else [])
+    if annots:
+        e['annots'] = list(annots)
     return e
 
 
@@ -41,7 +60,76 @@ def ty_of_expr(e):
             ann = a[1:]
     if e['prim'] == 'or':
         return ('o', ann, ty_of_expr(e['args'][0]), ty_of_expr(e['args'][1]))
-    return ('l', ann, LEAF_OF_PRIM[e['prim']])
+    return ('l', ann, LEAF_ID[json.dumps({k: v for k, v in e.items() if k != 'annots'}, sort_keys=True)])
+
+
+def hex_tok(s):
+    return '+' + s.encode().hex()
+
+
+def rty_toks(e, spine=True):
+    """the type expression as the model reads it; spine: still reached through `or` nodes only (then a non-union node is a
+    leaf of the parameter type and carries its id in the leaf table; ids below a leaf are never read: 0)"""
+    annots = e.get('annots', [])
+    out = [str(len(annots))] + [hex_tok(a) for a in annots]
+    prim, args = e['prim'], e.get('args', [])
+    if prim == 'or':
+        return ['o'] + out + rty_toks(args[0], spine) + rty_toks(args[1], spine)
+    tid = str(LEAF_ID[json.dumps({k: v for k, v in e.items() if k != 'annots'}, sort_keys=True)] if spine else 0)
+    if prim == 'pair' and len(args) == 2:
+        return ['p'] + out + [tid] + rty_toks(args[0], False) + rty_toks(args[1], False)
+    if prim == 'option':
+        return ['O'] + out + [tid] + rty_toks(args[0], False)
+    if prim == 'list':
+        return ['S'] + out + [tid] + rty_toks(args[0], False)
+    assert not args, e
+    return ['l'] + out + [hex_tok(prim), tid]
+
+
+def raw_ok(e):
+    """independent statement of what a type expression must satisfy as far as annotations go (Tezos: at most one field
+    and one type annotation per node; pytezos additionally: none on the argument of option / list)"""
+    annots = e.get('annots', [])
+    if sum(a.startswith('%') for a in annots) > 1 or sum(a.startswith(':') for a in annots) > 1:
+        return False
+    args = e.get('args', [])
+    if e['prim'] in ('option', 'list') and any(a.startswith('%') for a in args[0].get('annots', [])):
+        return False
+    return all(raw_ok(a) for a in args)
+
+
+def minimal_rejected(e):
+    """a smallest type expression with the same offending node that the real code also accepts (else the expression itself)"""
+    from pytezos.michelson.sections.parameter import ParameterSection
+
+    def offending(n):
+        annots = n.get('annots', [])
+        if sum(a.startswith('%') for a in annots) > 1 or sum(a.startswith(':') for a in annots) > 1:
+            return {'prim': 'unit', 'annots': annots}
+        if n['prim'] in ('option', 'list') and any(a.startswith('%') for a in n['args'][0].get('annots', [])):
+            return {'prim': n['prim'], 'args': [{'prim': 'unit', 'annots': [a for a in n['args'][0]['annots'] if a.startswith('%')][:1]}]}
+        for a in n.get('args', []):
+            r = offending(a)
+            if r is not None:
+                return r
+        return None
+    node = offending(e)
+    for cand in ([node, {'prim': 'or', 'args': [node, {'prim': 'unit'}]}] if node is not None else []):
+        try:
+            ParameterSection.match({'prim': 'parameter', 'args': [cand]})
+            return cand
+        except Exception:
+            pass
+    return e
+
+
+def view_expr(e):
+    """the parameter tree the entrypoint rules see in an accepted type expression"""
+    names = [a[1:] for a in e.get('annots', []) if a.startswith('%')]
+    ann = names[0] if names else None
+    if e['prim'] == 'or':
+        return ('o', ann, view_expr(e['args'][0]), view_expr(e['args'][1]))
+    return ('l', ann, LEAF_ID[json.dumps({k: v for k, v in e.items() if k != 'annots'}, sort_keys=True)])
 
 
 def val_expr(v):
@@ -58,11 +146,25 @@ def val_expr(v):
         return {'string': f's{x}'}
     if t == 3:
         return {'bytes': '%02x' % (x % 256) * (1 + x // 256)}
+    if t == 5:
+        return {'prim': 'Pair', 'args': [{'prim': 'Left', 'args': [{'int': str(x)}]} if x % 2 == 0 else {'prim': 'Right', 'args': [{'string': 'q'}]}, {'int': str(x)}]}
+    if t in (6, 8):
+        return {'prim': 'None'} if x == 0 else {'prim': 'Some', 'args': [{'prim': 'Right', 'args': [{'int': str(x)}]}]}
+    if t in (7, 9):
+        return [{'prim': 'Left', 'args': [{'int': str(x)}]}] + [{'prim': 'Right', 'args': [{'string': 'r'}]}] * (x % 2)
     return {'prim': 'Pair', 'args': [{'int': str(x)}, {'string': f'p{x}'}]}
 
 
 def val_of_expr(e):
+    if isinstance(e, list):
+        return ('V', 7, int(e[0]['args'][0]['int']))
     if 'prim' in e:
+        if e['prim'] == 'None':
+            return ('V', 6, 0)
+        if e['prim'] == 'Some':
+            return ('V', 6, int(e['args'][0]['args'][0]['int']))
+        if e['prim'] == 'Pair' and e['args'][0].get('prim') in ('Left', 'Right'):
+            return ('V', 5, int(e['args'][1]['int']))
         if e['prim'] == 'Left':
             return ('L', val_of_expr(e['args'][0]))
         if e['prim'] == 'Right':
@@ -102,16 +204,24 @@ def ty_str(t):
     """Michelson-ish rendering for messages"""
     a = '' if t[1] is None else f' %{t[1]}'
     if t[0] == 'l':
-        return ['unit', 'nat', 'string', 'bytes', 'pair nat string'][t[2]] + a if t[2] != 4 else f'(pair{a} nat string)'
+        if t[2] < 4:
+            return ['unit', 'nat', 'string', 'bytes'][t[2]] + a
+        from pytezos.michelson.format import micheline_to_michelson
+        e = dict(LEAF_TYPES[t[2]])
+        if t[1] is not None:
+            e['annots'] = ['%' + t[1]]
+        return '(' + micheline_to_michelson(e, inline=True) + ')'
     l, r = ty_str(t[2]), ty_str(t[3])
-    wrap = lambda s, n: f'({s})' if n[0] == 'o' or (n[1] is not None and n[2] != 4) else s
+    wrap = lambda s, n: f'({s})' if n[0] == 'o' or (n[1] is not None and n[2] < 4) else s
     return f'or{a} {wrap(l, t[2])} {wrap(r, t[3])}'
 
 
 def val_str(v):
     if v[0] == 'V':
-        e = val_expr(v)
-        return 'Unit' if v[1] == 0 else e.get('int') or (('"%s"' % e['string']) if 'string' in e else None) or ('0x' + e['bytes'] if 'bytes' in e else f'(Pair {v[2]} "p{v[2]}")')
+        if v[1] == 0:
+            return 'Unit'
+        from pytezos.michelson.format import micheline_to_michelson
+        return micheline_to_michelson(val_expr(v), inline=True, wrap=True)
     return ('Left ' if v[0] == 'L' else 'Right ') + (val_str(v[1]) if v[1][0] == 'V' else f'({val_str(v[1])})')
 
 
@@ -223,6 +333,8 @@ def classify(e):
     msg = str(root.args[-1]) if root.args else ''
     if isinstance(root, KeyError):
         return 'err:key-error'
+    if 'annotations are not allowed' in msg or 'argument type cannot be annotated' in msg:
+        return 'err:rejected-type'
     if msg.startswith('duplicate key'):
         return 'err:duplicate-key'
     if msg.startswith('unexpected entrypoint'):
@@ -233,15 +345,16 @@ def classify(e):
 
 
 class Impl:
-    def __init__(self, t, warm=False):
+    def __init__(self, t, warm=False, deco=None):
         """warm: before anything else the matched type is used the way a Python-object view uses it (to_python_object /
         from_python_object of a few values) — the answers of the parameter API must not depend on what was called before
         on the same type (per-class caches of layouts are shared between the two views)"""
         from pytezos.michelson.sections.parameter import ParameterSection
         self.t = t
         self.err = None
+        self.texpr = ty_expr(t, deco)
         try:
-            self.sec = ParameterSection.match({'prim': 'parameter', 'args': [ty_expr(t)]})
+            self.sec = ParameterSection.match({'prim': 'parameter', 'args': [self.texpr]})
         except Exception as e:
             self.sec, self.err = None, classify(e)
         if warm and self.sec is not None:
@@ -282,59 +395,206 @@ class Impl:
             return classify(e)
 
 
-def python_object_stream(ctx, types):
-    """the same entrypoint calls given in the Python-object form `{entrypoint: argument}` (ParameterSection.from_python_object —
-    what `contract.<entrypoint>(arg)` uses), on parameter types whose unannotated leaves additionally carry `:type` names, some of
-    them equal to an entrypoint name: a type name is not an entrypoint (oracle only — the Lean model has no `:` annotations)"""
-    from pytezos.michelson.sections.parameter import ParameterSection
-    rng = ctx.rng
-    n_types = 0
-    for origin, t in types:
-        sp = spec_entrypoints(t)
-        if t[0] != 'o' or sp is None or len(sp) < 2:
-            continue
-        names = [n for n in sp if n != spec_root_name(t)]
-        if not names:
-            continue
-        n_types += 1
-        if n_types > (250 if ctx.tier == 'quick' else 4000):
-            break
-        mode = n_types % 3          # 0: no type names, 1: fresh type names, 2: type names equal to entrypoint names
+_LEAF_CLS = {}
 
-        def expr(n):
-            if n[0] == 'l':
-                e = dict(LEAF_TYPES[n[2]])
-            else:
-                e = {'prim': 'or', 'args': [expr(n[2]), expr(n[3])]}
-            if n[1] is not None:
-                e['annots'] = ['%' + n[1]]
-            elif n[0] == 'l' and mode and rng.random() < 0.7:
-                e['annots'] = [':' + (rng.choice(names) if mode == 2 else 'ty' + str(rng.randrange(5)))]
-            return e
-        texpr = expr(t)
+
+def leaf_py(ty, x):
+    """the Python object of the leaf value (ty, x), by the leaf type's own conversion (C12's subject; opaque here)"""
+    from pytezos.michelson.types.base import MichelsonType
+    if ty not in _LEAF_CLS:
+        _LEAF_CLS[ty] = MichelsonType.match(LEAF_TYPES[ty])
+    return _LEAF_CLS[ty].from_micheline_value(val_expr(('V', ty, x))).to_python_object()
+
+
+def leaf_of(v):
+    while v[0] != 'V':
+        v = v[1]
+    return v
+
+
+def py_toks(obj, v):
+    """tokens of the Python object `obj` that the real code produced for the value `v` (of a union type or a leaf type):
+    a string, {name: leaf object} or the leaf object itself; None when it has another shape"""
+    from pytezos.michelson.types.core import unit
+    lv = leaf_of(v)
+    leaf = ['U'] if lv[1] == 0 else ['V', str(lv[1]), str(lv[2])]
+
+    def is_leaf(o):
         try:
-            sec = ParameterSection.match({'prim': 'parameter', 'args': [texpr]})
-            listed = sec.list_entrypoints()
+            return isinstance(o, unit) if lv[1] == 0 else (type(o) is type(leaf_py(lv[1], lv[2])) and o == leaf_py(lv[1], lv[2]))
+        except Exception:
+            return False
+    if v[0] == 'V':
+        return leaf if is_leaf(obj) else None
+    if isinstance(obj, str):
+        return ['S', hex_tok(obj)]
+    if isinstance(obj, dict) and len(obj) == 1:
+        k = next(iter(obj))
+        if isinstance(k, str) and is_leaf(obj[k]):
+            return ['D', hex_tok(k)] + leaf
+    return None
+
+
+def py_of_toks(toks):
+    from pytezos.michelson.types.core import Unit
+    if toks[0] == 'U':
+        return Unit
+    if toks[0] == 'V':
+        return leaf_py(int(toks[1]), int(toks[2]))
+    name = bytes.fromhex(toks[1][1:]).decode()
+    return name if toks[0] == 'S' else {name: py_of_toks(toks[2:])}
+
+
+def python_object_cases(ctx, en):
+    """calls in the Python-object form (ParameterSection.from_python_object — what `contract.<entrypoint>(arg)` uses) and the
+    Python-object view of full values, for one matched type.  Returns [(line, kind, payload)]: the model lines and what to do with
+    the answer.  Oracle: the call `{e: object of a}` builds the full value `from_parameters(e, a)` denotes (spec_inject), whatever
+    `:type` names the nodes carry — a type name (display name) is not an entrypoint."""
+    rng = ctx.rng
+    t, im, toks = en['t'], en['im'], en['toks']
+    out = []
+    sp = spec_entrypoints(t)
+    if im.sec is None or sp is None:
+        return out
+    try:
+        listed = im.sec.list_entrypoints()
+    except Exception:
+        return out
+    rn = spec_root_name(t)
+    names = list(sp)
+    if len(names) > 4:
+        names = rng.sample(names, 4)
+    for n in names:
+        if n not in listed:
+            continue
+        args = values_of(sp[n], payload=lambda i: i * 7 + 3)
+        a = rng.choice(args)
+        try:
+            obj = listed[n].from_micheline_value(val_expr(a)).to_python_object()
         except Exception:
             continue
-        for n in names:
-            aty = sp[n]
-            if aty[0] != 'l' or n not in listed:
-                continue
-            arg = values_of(aty, payload=lambda i: i * 7 + 3)[0]
-            want = spec_inject(t, n, arg)
-            try:
-                py = listed[n].from_micheline_value(val_expr(arg)).to_python_object()
-                got = val_of_expr(sec.from_python_object({n: py}).to_micheline_value())
-            except Exception as e:
-                got = classify(e)
-            ctx.case({'op': 'from_python_object', 'type': json.dumps(texpr)[:300], 'entrypoint': n}, nontrivial=True)
-            ctx.count('python_object_form', ['plain', 'fresh :type names', ':type names equal to entrypoint names'][mode])
-            if got != want:
-                ctx.violation(f'from_python_object-wrong-value:{["plain", "type-names", "type-name=entrypoint"][mode]}',
-                              f'parameter {json.dumps(texpr)}: the call {{{n!r}: {py if not isinstance(got, str) else val_str(arg)}}} given as a Python object '
-                              f'builds {got if isinstance(got, str) else val_str(got)}, expected {val_str(want)}',
-                              {'type': texpr, 'entrypoint': n, 'argument': val_expr(arg), 'got': got if isinstance(got, str) else val_expr(got), 'expected': val_expr(want)})
+        ot = py_toks(obj, a)
+        if ot is None:
+            continue
+        out.append((f'pyfrom {toks} D {hex_tok(n)} ' + ' '.join(ot), 'call', (n, a, {n: obj})))
+        if sp[n][0] == 'l' and sp[n][2] == 0:
+            out.append((f'pyfrom {toks} S {hex_tok(n)}', 'call', (n, a, n)))
+    # names that are display names of leaves (`:type` names, generated names) or nothing at all
+    others = set(en['type_names']) | {'nat_0', 'unit_1', 'nosuch'}
+    for n in sorted(others)[:3]:
+        a = ('V', 1, 5)
+        out.append((f'pyfrom {toks} D {hex_tok(n)} V 1 5', 'probe', (n, a, {n: 5})))
+    # the Python-object view of full values
+    vals = en['vals']
+    for v in (vals if len(vals) <= 2 else rng.sample(vals, 2)):
+        out.append((f'pyto {toks} ' + ' '.join(val_toks(v)), 'view', v))
+    return out
+
+
+def python_object_check(ctx, en, kind, payload, model_line):
+    t, im = en['t'], en['im']
+    sp = spec_entrypoints(t)
+    if kind == 'view':
+        v = payload
+        try:
+            obj = im.sec.from_micheline_value(val_expr(v)).to_python_object()
+            if t[0] != 'o':
+                assert isinstance(obj, dict) and list(obj) == [im.sec.root_name]
+                inner = py_toks(obj[im.sec.root_name], v)
+                got = None if inner is None else ' '.join(['D', hex_tok(im.sec.root_name)] + inner)
+            else:
+                got = py_toks(obj, v)
+                got = None if got is None else ' '.join(got)
+            if got is None:
+                got = 'other-shape'
+        except Exception as e:
+            got = classify(e)
+        ctx.case({'op': 'to_python_object', 'type': en['tdesc'], 'value': val_str(v)}, nontrivial=True)
+        if model_line is not None and model_line != got:
+            ctx.mismatch('to-python-object', {'type': en['tdesc'], 'value': val_str(v)}, got, model_line)
+        return
+    n, a, obj = payload
+    try:
+        got = val_of_expr(im.sec.from_python_object(obj).to_micheline_value())
+    except Exception as e:
+        got = classify(e)
+    ctx.case({'op': 'from_python_object', 'type': en['tdesc'], 'entrypoint': n, 'form': 'str' if isinstance(obj, str) else 'dict', 'kind': kind}, nontrivial=True)
+    shown = show_val(got)
+    if isinstance(got, str) and got not in ('err:key-error', 'err:rejected-type', 'err:duplicate-key'):
+        # TypeError / AssertionError / the leaf reader's own exception: one class on both sides
+        shown = 'err'
+    if model_line is not None:
+        m = model_line if not model_line.startswith('err:') or model_line in ('err:key-error', 'err:rejected-type', 'err:duplicate-key') else 'err'
+        if m != shown:
+            ctx.mismatch('from-python-object', {'type': en['tdesc'], 'call': repr(obj)}, shown, m)
+    ctx.count('python_object_form', f'{kind}:{en["deco_mode"]}')
+    if kind == 'call':
+        want = spec_inject(t, n, a)
+        if got != want:
+            ctx.violation(f'from_python_object-wrong-value:{en["deco_mode"]}',
+                          f'parameter {json.dumps(im.texpr)}: the call {obj!r} given as a Python object builds '
+                          f'{got if isinstance(got, str) else val_str(got)}, expected {val_str(want)} (= from_parameters({n}, {val_str(a)}))',
+                          {'type': im.texpr, 'entrypoint': n, 'argument': val_expr(a), 'got': got if isinstance(got, str) else val_expr(got), 'expected': val_expr(want)})
+    elif n not in sp and not isinstance(got, str):
+        ctx.violation(f'from_python_object-accepts-unlisted-name:{en["deco_mode"]}',
+                      f'parameter {json.dumps(im.texpr)}: the call {obj!r} names no entrypoint (listed: {sorted(sp)}) but was decoded as {val_str(got)}',
+                      {'type': im.texpr, 'call': n, 'got': val_expr(got)})
+
+
+# ------------------------------------------------------------------------------------------ decorations
+DECO_MODES = ['plain'] * 9 + ['type-names'] * 3 + ['type-names=entrypoints'] * 3 + ['several-annotations'] * 4 + ['rejected-annotations']
+
+
+def decorate(rng, t, mode):
+    """raw annotation lists for some nodes: (deco, type names used)"""
+    nodes = []
+
+    def walk(n, path):
+        nodes.append((path, n))
+        if n[0] == 'o':
+            walk(n[2], path + '0')
+            walk(n[3], path + '1')
+    walk(t, '')
+    deco, tnames = {}, []
+    if mode == 'plain':
+        return deco, tnames
+    entry = [n[1] for _, n in nodes if n[1]] + ['default', 'root']
+    k = 0
+    for path, n in nodes:
+        base = ['%' + n[1]] if n[1] is not None else []
+        if rng.random() < 0.35:
+            continue
+        k += 1
+        if mode == 'type-names':
+            tn = f'ty{rng.randrange(4)}'
+            deco[path] = [':' + tn] + base
+        elif mode == 'type-names=entrypoints':
+            tn = rng.choice(entry)
+            deco[path] = rng.choice([[':' + tn] + base, base + [':' + tn]])
+        else:
+            tn = rng.choice([f't{k}', rng.choice(entry)])
+            extra = rng.choice([[':' + tn], ['@v'], [':' + tn, '@v'], ['@v', '@w'], ['@' + (n[1] or 'x'), ':' + tn], ['$odd', ':' + tn], ['']])
+            lst = base + extra
+            rng.shuffle(lst)
+            deco[path] = lst
+            if not any(a.startswith(':') for a in lst):
+                tn = None
+        if tn is not None:
+            tnames.append(tn)
+    if mode == 'rejected-annotations':
+        path, n = rng.choice(nodes)
+        base = deco.get(path, ['%' + n[1]] if n[1] is not None else [])
+        extra = rng.choice([['%zz'], ['%' + (n[1] or 'a'), '%' + (n[1] or 'b')], [':s', ':t'], ['%'], [':s', '@v', ':s']])
+        if extra == ['%'] and not any(a.startswith('%') for a in base):
+            extra = ['%', '%q']
+        if extra[0].startswith(':'):
+            base = [a for a in base if not a.startswith(':')]
+        lst = base + extra
+        while sum(a.startswith('%') for a in lst) < 2 and sum(a.startswith(':') for a in lst) < 2:
+            lst.append('%' + rng.choice(['zz', '', n[1] or 'b']))
+        rng.shuffle(lst)
+        deco[path] = lst
+    return deco, tnames
 
 
 def show_dict(d):
@@ -431,6 +691,8 @@ def gen_types(ctx):
         ('corpus', ('o', None, ('l', '', nat), ('l', None, string))),
         ('corpus', ('o', None, ('o', 'default', ('l', 'x', nat), ('l', None, unit)), ('l', None, string))),
         ('corpus', ('o', None, ('o', 'A', ('o', 'B', ('l', 'C', nat), ('l', None, unit)), ('l', None, unit)), ('l', None, string))),
+        ('corpus', ('o', None, ('l', 'a', 5), ('l', None, 6))), ('corpus', ('o', None, ('l', 'e2', 7), ('o', 'b', ('l', None, 6), ('l', None, 5)))),
+        ('corpus', ('l', None, 5)), ('corpus', ('l', 'x', 7)), ('corpus', ('o', None, ('l', 'a', 8), ('l', None, 1))), ('corpus', ('l', None, 9)),
         ('corpus', ('l', None, nat)), ('corpus', ('l', 'x', nat)), ('corpus', ('l', '', string)), ('corpus', ('l', 'default', 4)), ('corpus', ('l', 'root', unit)),
     ]
     if ctx.tier == 'thorough':
@@ -467,9 +729,16 @@ def gen_types(ctx):
             anns[0] = None
         mode = rng.choice(MODES)
         anns = special_names(rng, anns, mode)
-        lts = [rng.randrange(5) for _ in range(k)]
+        lts = [rng.randrange(5) if rng.random() < 0.85 else rng.choice(STRUCTURED_LEAVES + STRUCTURED_LEAVES + STRUCTURED_LEAVES + REFUSED_LEAVES[:1] + STRUCTURED_LEAVES + REFUSED_LEAVES[1:]) for _ in range(k)]
         out.append(('random-' + mode, build(sh, anns, lts)))
     return out
+
+
+def iter_nodes(t):
+    yield t
+    if t[0] == 'o':
+        yield from iter_nodes(t[2])
+        yield from iter_nodes(t[3])
 
 
 def depth(t):
@@ -547,6 +816,11 @@ def run(ctx):
                          'duplicate/empty/root-shadowing names), five opaque leaf types, non-union roots; per type: root name, entrypoint list, '
                          'to_parameters/from_parameters of every leaf value, from/to of every listed entrypoint with every argument, '
                          'ill-typed and unknown-entrypoint calls; thorough = all annotation subsets of all shapes with <= 6 leaves. '
+                         'Random types (and half of the corpus) are decorated: `:type` names (fresh / equal to entrypoint names) on 65 % of the nodes, several '
+                         'annotations on a node in random order with @var / odd-prefix / empty noise, one node with two % or two : annotations (rejected); '
+                         '15 % of the random leaves are pair / option / list types with annotated unions below them (or leaves Micheline.match refuses). '
+                         'Per accepted type additionally: from_python_object({e: object of a}) for up to 4 listed entrypoints, the string form for unit '
+                         'entrypoints, three names that are no entrypoints (type names, generated display names), to_python_object of two full values. '
                          'non-trivial = union type with at least one annotated node')
     ctx.assumptions += [
         'Spec.entrypoints / spec_entrypoints are my transcription of Tezos\' rule: every annotated union branch (inner or leaf, any depth) is an '
@@ -558,19 +832,29 @@ def run(ctx):
         'a branch whose name equals the root name (root annotated %x with a branch %x — Tezos rejects that type as a duplicate; `%root` next to '
         '`%default`) is treated as shadowed by the root entrypoint, as from_parameters and list_entrypoints do',
         'leaf types are opaque: unit, nat, string, bytes, pair nat string stand for all non-union types; their own decoding is C11',
-        '`:type` annotations and multiple %annotations on one node are outside the generated domain',
+        'Python objects of non-union types are opaque in the model (produced and read by the real leaf type: C12); of the shapes '
+        'OrType.from_python_object accepts, `{name: obj}` and the enum string are modelled (not tuples / lists)',
+        'a type expression with two `%` or two `:` annotations on a node is rejected by Tezos and by Micheline.match; pytezos also refuses a '
+        '%annotation on the argument of option / list and ignores `@var` annotations on types (Tezos rejects those): the model follows pytezos',
     ]
     types = gen_types(ctx)
-    python_object_stream(ctx, types)
     max_vals = 10 if ctx.tier == 'quick' else 6
     lines, plan = [], []   # plan: (kind, payload, line index)
     impls = []
     for ti, (origin, t) in enumerate(types):
-        toks = ' '.join(ty_toks(t))
-        im = Impl(t, warm=(ti % 2 == 1))
+        mode = 'plain' if origin.startswith('exhaustive') or (origin == 'corpus' and ti % 2 == 0) else ctx.rng.choice(DECO_MODES)
+        deco, tnames = decorate(ctx.rng, t, mode)
+        im = Impl(t, warm=(ti % 2 == 1), deco=deco)
+        toks = ' '.join(rty_toks(im.texpr))
         ctx.count('python_view_used_first', ti % 2 == 1)
-        entry = {'origin': origin, 't': t, 'im': im, 'i0': len(lines), 'warm': ti % 2 == 1}
+        entry = {'origin': origin, 't': t, 'im': im, 'i0': len(lines), 'warm': ti % 2 == 1, 'toks': toks, 'deco_mode': mode,
+                 'type_names': tnames, 'rejected': not raw_ok(im.texpr), 'py': [], 'vals': [], 'calls': [],
+                 'tdesc': ty_str(t) if not deco else json.dumps(im.texpr)}
         lines += ['root ' + toks, 'list ' + toks, 'spec ' + toks]
+        if entry['rejected']:
+            impls.append(entry)
+            continue
+        assert view_expr(im.texpr) == t, (im.texpr, t)
         vals = values_of(t, payload=lambda i: i * 3 + 1)
         if len(vals) > max_vals:
             vals = ctx.rng.sample(vals, max_vals)
@@ -596,6 +880,10 @@ def run(ctx):
         entry['calls'] = calls
         for n, a, _ in calls:
             lines.append('from ' + toks + ' ' + ann_tok(n) + ' ' + ' '.join(val_toks(a)))
+        if (ti % 8 == 0 if (ctx.tier == 'thorough' and origin.startswith('exhaustive')) else (ti % 3 != 2 or mode != 'plain')):
+            for ln, kind, payload in python_object_cases(ctx, entry):
+                entry['py'].append((len(lines), kind, payload))
+                lines.append(ln)
         impls.append(entry)
     model = ctx.model(lines)
     if model and model[0] == 'unrecognised-source':
@@ -608,9 +896,25 @@ def run(ctx):
     seen_kinds = set()
     for en in impls:
         t, im, i = en['t'], en['im'], en['i0']
-        tdesc = ty_str(t)
+        tdesc = en['tdesc']
         nontriv = t[0] == 'o' and any(truthy(n) for n, _ in branches(t))
         ctx.count('origin', en['origin'])
+        ctx.count('annotations', en['deco_mode'])
+        has = lambda ids: any(n[0] == 'l' and n[2] in ids for n in iter_nodes(t))
+        ctx.count('leaves_with_unions_below', 'refused' if has(REFUSED_LEAVES) else has(STRUCTURED_LEAVES))
+        if en['rejected']:
+            # the type expression itself is refused (two % / two : annotations on a node, %annotation below option / list)
+            ctx.case({'op': 'match', 'type': tdesc}, nontrivial=True)
+            cmp('root-name', tdesc, im.root(), i)
+            cmp('list-entrypoints', tdesc, show_dict(im.list()), i + 1)
+            if model is not None and model[i + 2] != 'rejected':
+                ctx.mismatch('lean-spec-vs-python-spec', tdesc, 'rejected', model[i + 2])
+            ctx.count('spec', 'rejected-type-expression')
+            if im.err is None:
+                small = minimal_rejected(im.texpr)
+                ctx.violation('accepts-rejected-type-expression', f'parameter {json.dumps(small)} was matched although a node carries several field / type '
+                              f'annotations (or the argument of option / list a field annotation)', {'type': small, 'found_on': im.texpr})
+            continue
         ctx.count('depth', depth(t))
         ctx.count('leaves', min(n_leaves(t), 12))
         ctx.count('annotated_nodes', min(len(branches(t)), 8))
@@ -632,13 +936,13 @@ def run(ctx):
         if sp is None:
             ctx.count('spec', 'ill-formed')
             if not isinstance(got, str):
-                ctx.violation(f'lists-ill-formed-type:{tdesc}', f'parameter ({tdesc}) has duplicate entrypoint names but list_entrypoints returned {sorted(got)}', {'type': ty_expr(t)})
+                ctx.violation(f'lists-ill-formed-type:{tdesc}', f'parameter ({tdesc}) has duplicate entrypoint names but list_entrypoints returned {sorted(got)}', {'type': im.texpr})
         else:
             ctx.count('spec', 'shadowed-branch' if any(n == spec_root_name(t) for n, _ in proper_branches(t)) else 'ok')
             if isinstance(got, str) or got != sp:
                 ctx.violation(f'entrypoints-differ:{tdesc}',
                               f'parameter ({tdesc}): list_entrypoints = {got if isinstance(got, str) else {k: ty_str(v) for k, v in got.items()}}, '
-                              f'expected {{{", ".join(k + ": " + ty_str(v) for k, v in sp.items())}}}', {'type': ty_expr(t)})
+                              f'expected {{{", ".join(k + ": " + ty_str(v) for k, v in sp.items())}}}', {'type': im.texpr})
         # ---- full value -> (entrypoint, argument) -> full value
         j = i + 3
         for v in en['vals']:
@@ -648,7 +952,7 @@ def run(ctx):
             j += 1
             if sp is None:
                 if not isinstance(r, str):
-                    ctx.violation(f'to_parameters-on-ill-formed-type:{tdesc}', f'to_parameters succeeded on a type with duplicate entrypoints', {'type': ty_expr(t), 'value': val_expr(v)})
+                    ctx.violation(f'to_parameters-on-ill-formed-type:{tdesc}', f'to_parameters succeeded on a type with duplicate entrypoints', {'type': im.texpr, 'value': val_expr(v)})
                 continue
             f = roundtrip_failure(t, v, im)
             ctx.count('to_parameters', 'ok' if f is None else f[0])
@@ -665,7 +969,7 @@ def run(ctx):
                 after = ' (after to_python_object / from_python_object were used on the same matched type)' if w else ''
                 ctx.violation(f'{kind}' + (':after-python-view' if w else ''), f'parameter ({ty_str(t2)}), value {val_str(v2)}{after}: {f2[1]}',
                               {'type': ty_expr(t2), 'value': val_expr(v2), 'kind': kind, 'python_view_used_first': w,
-                               'found_on': {'type': ty_expr(t), 'value': val_expr(v)}})
+                               'found_on': {'type': im.texpr, 'value': val_expr(v)}})
         # ---- (entrypoint, argument) -> full value -> (entrypoint', argument') -> full value
         for n, a, why in en['calls']:
             ctx.case({'op': 'from', 'type': tdesc, 'entrypoint': n, 'arg': val_str(a)}, nontrivial=nontriv)
@@ -678,12 +982,12 @@ def run(ctx):
             ctx.count('from_parameters', 'listed+typed' if listed else ('ok' if not isinstance(r, str) else r))
             if not listed:
                 if not isinstance(r, str) and (n not in sp):
-                    ctx.violation(f'accepts-unlisted-entrypoint:{tdesc}:{n}', f'from_parameters accepted entrypoint {n} that is not listed', {'type': ty_expr(t), 'entrypoint': n})
+                    ctx.violation(f'accepts-unlisted-entrypoint:{tdesc}:{n}', f'from_parameters accepted entrypoint {n} that is not listed', {'type': im.texpr, 'entrypoint': n})
                 continue
             want = spec_inject(t, n, a)
             if r != want:
                 ctx.violation(f'from_parameters-wrong-value:{tdesc}:{n}', f'parameter ({tdesc}): from_parameters({n}, {val_str(a)}) = {r if isinstance(r, str) else val_str(r)}, expected {val_str(want)}',
-                              {'type': ty_expr(t), 'entrypoint': n, 'value': val_expr(a)})
+                              {'type': im.texpr, 'entrypoint': n, 'value': val_expr(a)})
                 continue
             back = im.to(r)
             if isinstance(back, str) or im.frm(*back) != r:
@@ -702,4 +1006,7 @@ def run(ctx):
             # strongest form: a leaf-typed, unshadowed entrypoint comes back as the very same pair
             if sp[n][0] == 'l' and back != (n, a):
                 ctx.violation(f'pair-not-preserved:{tdesc}:{n}', f'parameter ({tdesc}): ({n}, {val_str(a)}) came back as ({back[0]}, {val_str(back[1])})',
-                              {'type': ty_expr(t), 'entrypoint': n, 'value': val_expr(a)})
+                              {'type': im.texpr, 'entrypoint': n, 'value': val_expr(a)})
+        # ---- the Python-object form of calls / of full values
+        for idx, kind, payload in en['py']:
+            python_object_check(ctx, en, kind, payload, model[idx] if model is not None else None)
